@@ -214,9 +214,14 @@ func (s *Server) Unsubscribe(ctx context.Context, clientID string, query Query) 
 	select {
 	case s.cmds <- cmd{op: unsub, clientID: clientID, query: query}:
 		s.mtx.Lock()
-		delete(clientSubscriptions, query.String())
-		if len(clientSubscriptions) == 0 {
-			delete(s.subscriptions, clientID)
+		// Look the client up again: while this call was waiting for the server
+		// loop, other calls of the same client may have replaced its entry (the
+		// map read above may no longer be the one in s.subscriptions).
+		if clientSubscriptions, ok = s.subscriptions[clientID]; ok {
+			delete(clientSubscriptions, query.String())
+			if len(clientSubscriptions) == 0 {
+				delete(s.subscriptions, clientID)
+			}
 		}
 		s.mtx.Unlock()
 		return nil
